@@ -18,6 +18,15 @@ def main():
     if a.replay:
         return mod.replay(a.replay)
     chk = framework.Check(a.pid, a.tier, seed)
+    # theorems of the regex-level lexer model that belong to a property whose check module is owned by a package
+    # (tools/props/extra_targets.json): built and audited with the module's own targets
+    import json
+    ex = {}
+    xp = os.path.join(ROOT, 'tools', 'props', 'extra_targets.json')
+    if os.path.exists(xp):
+        ex = json.load(open(xp)).get(a.pid, {})
+    mod.TARGETS = list(mod.TARGETS) + [t for t in ex.get('targets', []) if t not in mod.TARGETS]
+    mod.THEOREMS = list(mod.THEOREMS) + [t for t in ex.get('theorems', []) if t not in mod.THEOREMS]
     try:
         with framework.Lock():
             ok = chk.extract()
